@@ -4,6 +4,14 @@ CONSTANTS
   Subs = {"s1", "s2"}
   ValuesOf <- ValuesT
   MaxOps <- OpsT
-INVARIANTS RegInvariants EventsAreWrites OneEventPerWriteAtRest NotifyAfterSave
+  InitTables <- TabNone
+  Foreign = {}
+  Movers = {}
+  Closers = {}
+  MaxMoves = 0
+  Atomic = FALSE
+  Dev_IterateLiveSlice = FALSE
+  Dev_SendErrorFailsWrite = FALSE
+INVARIANTS RegInvariants EventsAreWrites OneEventPerWriteAtRest NotifyAfterSave Accounting AcceptedWriteReturnsOK
 PROPERTIES RefinesRegister
 CHECK_DEADLOCK FALSE
